@@ -77,6 +77,13 @@ func init() {
 	c15.QuickRuns, c15.ThoroughRuns, c15.RunsPerProc = 12000, 300000, 200
 	c15.Rule = "one evaluation = one simulated run (limit 2-6, 1-8 submitter goroutines, 1-40 microtasks of every priority and variant with run times, errors, panics, repeated done calls; generous or tight max delays; seeded schedule); distinct = distinct hash of configuration + per-submission outcome + observed maximum concurrency; non-trivial = at least 2 goroutine switches or a fault fired"
 	props["C15"] = &c15
+	props["C04"] = &propCfg{
+		Harness: "cfgsim", Pkgs: "log,modules,config", QuickRuns: 5000, ThoroughRuns: 400000, RunsPerProc: 250,
+		QuickWall: 70 * time.Second, ThoroughWall: 15 * time.Minute, Level: "exploration",
+		Rule: "one evaluation = one simulated run (3-10 registered options of all four types with regex / allowed values / validation function / release level; a generated history of set, set-default, replace, replace-default, save+load and release-level changes in either layer with values of every Go and JSON-decoded kind; reads through plain, concurrent and fresh getters after every step, or 1-6 reader goroutines concurrently with the setter; seeded schedule); distinct = distinct hash of the operation history and configuration; non-trivial = at least 2 goroutine switches",
+		Real: []string{"portbase/config (instrumented)", "portbase/modules (instrumented; owner of the change event)", "portbase/log (instrumented, not started)", "config.json on the real file system in the scratch directory"},
+		Stub: []string{"database controller (nil: pushUpdate is a no-op)"},
+	}
 	props["C20"] = &propCfg{
 		Harness: "logsim", Pkgs: "log", QuickRuns: 4000, ThoroughRuns: 150000, RunsPerProc: 100,
 		QuickWall: 70 * time.Second, ThoroughWall: 15 * time.Minute, Level: "exploration",
